@@ -302,11 +302,11 @@ def check(ctx):
     from .. import vendored
     vendored.check(ctx, "C08.4", ("quaternion_matrix",
                                   "quaternion_from_matrix"))
-    _lazy_getters(ctx, prog)
+    ctx.section(_lazy_getters, ctx, prog)
     # --------------------------------------------------------------- C08.5
-    _transform(ctx, prog)
+    ctx.section(_transform, ctx, prog)
     # --------------------------------------------------------------- C08.6
-    _scale(ctx, prog)
+    ctx.section(_scale, ctx, prog)
     # --------------------------------------------------------------- C08.7
     for cq, names_ in ((PATH, ("distances", "path_length", "num_poses",
                                "get_infos", "check")),
@@ -325,7 +325,7 @@ def check(ctx):
                    f"the next operation",
                    key=f"C08.7:{f.qualname}:cached")
 
-    _derived(ctx, prog)
+    ctx.section(_derived, ctx, prog)
     # --------------------------------------------------------------- C08.8
     from ..core import import_rules
     n = import_rules(ctx, "c04", ("C04.3", "C04.4"), "C08.8")
@@ -739,12 +739,14 @@ def _propagate(ctx, f, res: Result, selfp: T, tpar: T, mode: str):
                     f"p[k+{o2}]) for k < n{min(c1, c2):+d}"
                     f"{'' if users else ', not right-multiplied by t'}")
         break
-    ctx.require(ok2 is not None, f"transform[propagate]: {why2} "
-                f"(unknown idiom)")
-    ctx.ob("C08.5", f, ok2,
-           "transform[propagate]: D_i = relative_se3(p_i, p_{i+1}).dot(t) "
-           "over all n-1 consecutive index pairs" if ok2 else
-           f"transform[propagate]: {why2}",
+    if ok2 is None:
+        ctx.undecidable("C08.5", f, f"transform[propagate]: {why2} "
+                        f"(unknown idiom)")
+    else:
+        ctx.ob("C08.5", f, ok2,
+               "transform[propagate]: D_i = relative_se3(p_i, p_{i+1}).dot(t) "
+               "over all n-1 consecutive index pairs" if ok2 else
+               f"transform[propagate]: {why2}",
            key="C08.5:transform:propagate:rel-shape")
     # first pose kept
     setm = [e for e in res.of_kind("setattr")
@@ -800,8 +802,10 @@ def _propagate(ctx, f, res: Result, selfp: T, tpar: T, mode: str):
             why4 = (f"accumulation at {e.where} is new[k+{lp[1]}].D[k+{ro}]"
                     f"{'' if whole else ' over a truncated index range'}")
         break
-    ctx.require(ok4 is not None, f"transform[propagate]: {why4} "
-                f"(unknown idiom)")
+    if ok4 is None:
+        ctx.undecidable("C08.5", f, f"transform[propagate]: {why4} "
+                        f"(unknown idiom)")
+        return
     ctx.ob("C08.5", f, ok4,
            "transform[propagate]: new pose k+1 = new pose k . D_k "
            "(accumulated from the left)" if ok4 else
